@@ -185,6 +185,53 @@ fn variants(r: &mut Rng, b: &Ft, typed: bool) -> Vec<Ft> {
     let mut c = b.clone();
     c.ns = b.ns.replace('/', "//");
     v.push(c);
+    // textually different values that a "smarter" comparison might merge: leading zeros, letter
+    // case, surrounding space, trailing dot, composed vs decomposed accents — in every field
+    let similar = |x: &str| -> Vec<String> {
+        vec![
+            format!("{x}1.01"),
+            format!("{x}1.1"),
+            format!("{x}1.10"),
+            format!("{x}01.1"),
+            format!("{x}1.1.0"),
+            format!("{x}rc"),
+            format!("{x}RC"),
+            format!("{x}Rc"),
+            format!(" {x}rc"),
+            format!("{x}rc "),
+            format!("{x}rc."),
+            format!("{x}\u{e9}"),
+            format!("{x}e\u{301}"),
+            format!("{x}a+b"),
+            format!("{x}a b"),
+            format!("{x}a%20b"),
+        ]
+    };
+    for t in similar(&b.ver) {
+        let mut c = b.clone();
+        c.ver = t;
+        v.push(c);
+    }
+    for t in similar("") {
+        let mut c = b.clone();
+        c.name = format!("{}{t}", b.name);
+        v.push(c);
+        let mut c = b.clone();
+        c.quals = vec![("k".into(), t.clone())];
+        v.push(c);
+        let mut c = b.clone();
+        c.sub = format!("s/{}", t.trim());
+        v.push(c);
+        let mut c = b.clone();
+        c.ns = format!("n{}", t.replace('/', ""));
+        v.push(c);
+    }
+    // qualifier keys that are prefixes / extensions of each other, same values
+    for keys in [&["vcs"][..], &["vcs_url"], &["vc"], &["vcs", "z"], &["vcs_url", "z"], &["v", "vc"], &["vc", "vcs"]] {
+        let mut c = b.clone();
+        c.quals = keys.iter().map(|k| (k.to_string(), "git".to_string())).collect();
+        v.push(c);
+    }
     // checksum spelled differently (order / case): must collapse
     let mut c = b.clone();
     c.quals = vec![("checksum".into(), "B:FF,a:00".into())];
@@ -354,7 +401,7 @@ fn make_batch(r: &mut Rng, typed: bool) -> Vec<Src> {
         srcs.push(Src::Build { hist: h, borrowed: false });
     }
     r.shuffle(&mut srcs);
-    srcs.truncate(256);
+    srcs.truncate(384);
     srcs
 }
 
